@@ -104,7 +104,7 @@ def check_roundtrip(inp):
         if bdd.walk_tt(o.root, tuple(args)) != bdd.eval_tt(e, tuple(args)):
             return Failure('roundtrip', inp, 'the assembled OBDD denotes the expression', 'another function')
         parsed = _try(lambda: OBDD(bdd.to_str(e, 'sym', 'sym'), list(args)))
-        if parsed[0] != 'ok' or not (parsed[1] == o):
+        if parsed[0] != 'ok' or not (parsed[1] == o) or (parsed[1] != o) or (o != parsed[1]):
             return Failure('roundtrip', inp, 'OBDD(expr, args) == the same function assembled from nodes',
                            list(parsed) if parsed[0] != 'ok' else 'a different OBDD')
     else:
@@ -127,15 +127,15 @@ def check_roundtrip(inp):
     s_root = str(o.root)
     s_full = str(o)
     r = _try(lambda: OBDD(s_root, o.ordering))
-    if r[0] != 'ok' or not (r[1] == o):
+    if r[0] != 'ok' or not (r[1] == o) or not (o == r[1]) or (r[1] != o) or (o != r[1]):
         return Failure('roundtrip', inp, 'OBDD(str(o.root), o.ordering) == o',
                        list(r) if r[0] != 'ok' else 'a different OBDD', 'printed root: %r' % s_root)
     r = _try(lambda: OBDD(s_root, list(args)))
-    if r[0] != 'ok' or not (r[1] == o):
+    if r[0] != 'ok' or not (r[1] == o) or not (o == r[1]) or (r[1] != o) or (o != r[1]):
         return Failure('roundtrip', inp, 'OBDD(str(o.root), list) == o',
                        list(r) if r[0] != 'ok' else 'a different OBDD', 'printed root: %r' % s_root)
     r = _try(lambda: OBDD(s_full))
-    if r[0] != 'ok' or not (r[1] == o):
+    if r[0] != 'ok' or not (r[1] == o) or not (o == r[1]) or (r[1] != o) or (o != r[1]):
         return Failure('roundtrip', inp, 'OBDD(str(o)) == o',
                        list(r) if r[0] != 'ok' else 'a different OBDD', 'printed: %r' % s_full)
     if bdd.walk_tt(r[1].root, tuple(args)) != bdd.eval_tt(e, tuple(args)):
